@@ -35,6 +35,8 @@ func runC01(w *World) *Result {
 	SignRule(w, r, "R-C01-sign")
 	r.Rule("R-C01-chain", "else-if and else continue the open if construct (one compound command: exactly one branch runs)", 2)
 	ChainRule(w, bash, r, "R-C01-chain")
+	r.Rule("R-C01-emitcond", "no line is emitted or left out depending on the text of a value (a loop's exit test, a branch header, an assignment are there for every operand)", 30)
+	EmitCondRule(w, bash, r, "R-C01-emitcond")
 	r.Rule("R-C01-scope", "loop and branch constructs declare their variables in a clone of the context: sibling constructs can reuse a name (well-typed programs stay accepted)", 3)
 	if cf, err := buildCtxFacts(w); err == nil {
 		c07Clone(w, cf, r, "R-C01-scope")
@@ -78,6 +80,11 @@ func runC05(w *World) *Result {
 	PopRule(w, "batch", r, "R-C05-alloc")
 	r.Rule("R-C05-reg", "Batch: return / argument registers are written and read under the same stem and index, and the result of a call is copied out of the register right after the call line", 2)
 	RegisterRule(w, batch, r, "R-C05-reg")
+	r.Rule("R-C05-helpers", "Batch: every helper routine a line can call is part of the script (requested before ProgramEnd reaches its block) and only then", 10)
+	c16Helpers(w, batch, r, "R-C05-helpers")
+	r.Rule("R-C05-emitcond", "no line of either back end is emitted or left out depending on the text of a value (only on flags, types and operators)", 30)
+	EmitCondRule(w, batch, r, "R-C05-emitcond")
+	EmitCondRule(w, bash, r, "R-C05-emitcond")
 	r.Rule("R-C05-elemloop", "loops of the back ends that emit per element of a handed list (arguments, values, parameters) emit in every iteration", 2)
 	ElementLoopRule(w, batch, r, "R-C05-elemloop")
 	ElementLoopRule(w, bash, r, "R-C05-elemloop")
